@@ -63,6 +63,35 @@ def forwarded_handler(P, fn, region):
     return hs
 
 
+def descend_intermediate(P, disp, edge, region, h, callbb):
+    """A dispatcher arm may forward to a thin per-variant handler (`swap_native(deps, env, info, request)`) that performs
+    the arm's checks and tail-calls the real handler (`swap(deps, env, info, sender, ..)`).  The thin handler — private,
+    one call site, every success exit forwarding one callee that itself takes DepsMut — then plays the dispatcher's part
+    for that arm: (it, None, all its blocks, real handler, its call).  Its parameters stand for the arm's arguments
+    (P._param_overrides, consulted by Roots), so provenance still reads in terms of the entry point's message."""
+    depth = 0
+    while depth < 2 and h is not None and h.body is not None:
+        if (h.j.get("vis") or "Public").startswith("Public") or common.single_call_site(P, h) is None:
+            break
+        allb = set(range(len(h.body.blocks)))
+        hs2 = forwarded_handler(P, h, allb)
+        if len({f.path for _, f in hs2}) != 1 or len(hs2) != 1:
+            break
+        g = hs2[0][1]
+        if g is None or g.body is None or not any(re.match(r"^cosmwasm_std::(\S*::)?DepsMut", g.body.locals[i]["ty"]) for i in range(1, g.body.arg_count + 1)):
+            break
+        if any(not (cls == "err" or (isinstance(cls, tuple) and cls[0] == "forward")) for (b, i, cls, v) in common.exit_sites(P, h)):
+            break
+        cv = P.val_call(disp, disp.body, callbb)
+        if not hasattr(P, "_param_overrides"):
+            P._param_overrides = {}
+        P._param_overrides[h.path] = tuple(cv[4])
+        common.OVERRIDDEN[h.path] = (P, tuple(cv[4]))
+        disp, edge, region, callbb, h = h, None, allb, hs2[0][0], g
+        depth += 1
+    return disp, edge, region, h, callbb
+
+
 def handler_of(P, contract, variant):
     """(dispatcher Fn, arm edge, arm region, handler Fn, call bb) of an ExecuteMsg variant."""
     ex, d = dispatch_arms(P, contract)
@@ -73,7 +102,9 @@ def handler_of(P, contract, variant):
     hs = forwarded_handler(P, ex, region)
     if len(hs) != 1:
         raise AnchorMissing("arm %s::%s forwards to %d handlers" % (contract, variant, len(hs)))
-    return ex, edge, region, hs[0][1], hs[0][0]
+    if variant == "Receive":
+        return ex, edge, region, hs[0][1], hs[0][0]
+    return descend_intermediate(P, ex, edge, region, hs[0][1], hs[0][0])
 
 
 def hook_dispatch(P, contract):
@@ -96,7 +127,7 @@ def hook_handler_of(P, contract, variant):
     hs = forwarded_handler(P, recv, region)
     if len(hs) != 1:
         raise AnchorMissing("hook arm %s::%s forwards to %d handlers" % (contract, variant, len(hs)))
-    return recv, edge, region, hs[0][1], hs[0][0]
+    return descend_intermediate(P, recv, edge, region, hs[0][1], hs[0][0])
 
 
 def param(fn, ty_regex):
@@ -107,7 +138,9 @@ def param(fn, ty_regex):
 
 
 def P_(fn, i, path=""):
-    return "P:%s#%d%s" % (fn.path, i, path)
+    """Root string of parameter i of fn (plus a projection path); stated in the entry point's terms for a thin per-variant
+    handler (descend_intermediate), as Roots does."""
+    return common.param_root(fn, i, path)
 
 
 INFO_TY = r"^cosmwasm_std::\S*MessageInfo$"
